@@ -444,12 +444,12 @@ func main() {
 	// full enumeration up to fullLen, merged search up to maxLen
 	fullLen, maxLen := 4, 5
 	if !c.Quick() {
-		fullLen, maxLen = 5, 7
+		fullLen, maxLen = 5, 6
 	}
-	c.SetBudget(4*time.Minute, 30*time.Minute)
+	c.SetBudget(4*time.Minute, 40*time.Minute)
 	budget := 4 * time.Minute
 	if !c.Quick() {
-		budget = 30 * time.Minute
+		budget = 40 * time.Minute
 	}
 	if f := flag.Lookup("budget"); f != nil {
 		if d, err := time.ParseDuration(f.Value.String()); err == nil && d > 0 {
